@@ -138,6 +138,9 @@ def plan(prop):
             obs.append(('vrp-pragmatic', lambda ctx, size=size: po.ob_location_index_rule(ctx, size)))
         # totality beyond the inline load size (8 dimensions): the recorded known finding
         obs.append(('vrp-pragmatic', lambda ctx: po.ob_job_rules(ctx, 'pd', 9)))
+    if prop == 'C16':
+        for n in ((2, 3) if Q else (2, 3, 4)):
+            obs.append((core, lambda ctx, n=n: co.ob_time_aware_new(ctx, n)))
     if prop in ('C16', 'C10'):
         import pragmatic_obligations as po
         for n, m, ntt in (((4, None, 4), (4, 4, 4), (4, 1, 4), (4, 3, 4), (4, 5, 4), (4, 4, 3)) if Q else
